@@ -171,6 +171,20 @@ def flatten_boolop(test, op):
     return [test]
 
 
+def is_noop_stmt(s):
+    """docstring / bare constant, `pass`, print(...) and logging calls: statements without effect on the analysed behaviour"""
+    if isinstance(s, ast.Pass):
+        return True
+    if isinstance(s, ast.Expr):
+        if isinstance(s.value, ast.Constant):
+            return True
+        if isinstance(s.value, ast.Call):
+            n = dotted(s.value.func) or ""
+            if n == "print" or n.startswith(("logging.", "logger.", "traceback.print_")):
+                return True
+    return False
+
+
 def strip_not(e):
     """returns (negated?, inner)"""
     neg = False
